@@ -28,5 +28,12 @@ CLAIMED = {
  "C13": ("exploration",
          "About 120 function forms of the sequence library (map/filter/reject/partition/flat_map/flatten/each/count/any/all/find/locate/take/drop with predicates, zip/ziplongest/pairwise/transpose/enumerate, fold/scan/sum/product/min/max, sort/sort_on/reverse/unique, group/group'/group_all/window/prefixes/suffixes/frequencies, ++ .+ +. ** ^^ join split words lines, permutations/combinations/subsequences) x seven input kinds x ALL sequences of length 0..3 (quick) / 0..5 (thorough) over 4-symbol alphabets with cross-level duplicates, compared with Python one-liners including kind preservation, stability and first-occurrence order.",
          GRID_NOTE, GRID_TECH, "DESIGN.md §4 C13"),
+ "C14": ("fault_enumeration",
+         "Every callable of the global environment (listed from the engine at run time; effectful ones excluded by name) is applied to every tuple of 0, 1 and 2 arguments over a pool of 34 values covering all kinds and boundary values and to every triple over a sub-pool, and ~75 statement templates (index/slice/field assignment, op-assignment, pop/remove, unpacking around splats, annotations, swap, switch, calls of non-functions ...) are filled with every pool combination; each case runs inside try/catch next to a witness variable and a follow-up computation. Panic, abort (engine death) and hang (watchdog) are captured per case.",
+         "trusted: the engine's catch_unwind/watchdog/process-death attribution; bounded to the pool; cases with an infinite-stream or huge numeric argument are resource-bound and only tallied when they hang or exhaust memory",
+         "exhaustive fault enumeration over (callable x argument tuples) and (statement template x fillings) on the real interpreter", "DESIGN.md §4 C14"),
+ "C15": ("exploration",
+         "Parser totality: all token sequences up to length 3/4 over a 58-token alphabet (spaced and glued), all character strings up to length 4/5 over a 22-character alphabet, every single-token deletion/duplication/replacement of every corpus program (suite one-liners, examples), nesting ramps to depth 64, all format-string bodies up to length 4/5 - parsed by the real parser with panic/hang/abort capture. Literal decoding: every pool integer in every integer syntax (decimal, 0x/0b/0o, NrDIGITS for radix 2..36, 64r), q/float/imaginary forms and every escape form of every string flavour, evaluated and compared with the spelled value.",
+         GRID_NOTE, "bounded exhaustive enumeration of token/character strings and corpus mutations through the real lexer+parser, literal spellings through the evaluator", "DESIGN.md §4 C15"),
 }
 NOT_YET ={("C%02d" % i): "check not built yet in this session (design in DESIGN.md §4); will be claimed when its explorer exists" for i in range(1, 18)}
